@@ -5,7 +5,7 @@ use crate::fail;
 use crate::libcodec::{self, End, LItem};
 use crate::props::parse_case;
 use crate::refcodec::{self, RefItem, Strictness};
-use crate::sim::{run_sim, Frames, Kind, Sim, ALL_KINDS};
+use crate::sim::{run_sim, Frames, Kind, Out, Sim, ALL_KINDS};
 
 use bytes::Bytes;
 use serde::{Deserialize, Serialize};
@@ -355,22 +355,40 @@ fn ready_outcome(c: &ReadyCase) -> Outcome {
 pub struct SockSendCase {
     pub kind: Kind,
     pub msgs: Vec<MsgCase>,
+    /// REQ only: this many earlier peers connected and failed (stale entries in the rotation)
+    #[serde(default)]
+    pub stale: usize,
 }
 
 fn sock_send_outcome(c: &SockSendCase) -> Outcome {
     let mut o = Outcome::new(hash_of(c));
     o.nontrivial = c.msgs.iter().any(|m| m.nontrivial());
     let kind = c.kind;
+    let c = c.clone();
     let msgs: Vec<Frames> = c.msgs.iter().map(|m| m.frames()).collect();
     let (r, panics) = capture_panics(|| {
         run_sim(async {
             let mut f = vec![];
             let mut sim = Sim::new();
             let s = sim.socket(kind, None);
+            if kind == Kind::Req {
+                for _ in 0..c.stale {
+                    let dead = sim.link();
+                    dead.raw_handshake("REP", None);
+                    let a = sim.attach(s, &dead);
+                    let _ = sim.run(a).await;
+                    dead.from_lib.break_writer(std::io::ErrorKind::BrokenPipe);
+                    let a = sim.send(s, &[b"probe".to_vec()]);
+                    let _ = sim.run(a).await;
+                }
+            }
             let link = sim.link();
             link.raw_handshake(kind.a_compatible_peer(), None);
             let a = sim.attach(s, &link);
-            let _ = sim.run(a).await;
+            let id: Vec<u8> = match sim.run(a).await {
+                Ok(Some(Out::Attach(Ok(id)))) => id,
+                _ => vec![],
+            };
             if matches!(kind, Kind::Pub | Kind::XPub) {
                 // subscribe to everything
                 link.raw_send_now(&[vec![1u8]]);
@@ -382,14 +400,40 @@ fn sock_send_outcome(c: &SockSendCase) -> Outcome {
             }
             let mut expect = vec![];
             for m in &msgs {
-                let a = sim.send(s, m);
+                // what the application passes to send, and what must appear on the wire
+                let (app, wire): (Frames, Frames) = match kind {
+                    Kind::Router => {
+                        let mut a = vec![id.clone()];
+                        a.extend(m.clone());
+                        (a, m.clone())
+                    }
+                    Kind::Req | Kind::Rep => {
+                        let mut w = vec![vec![]];
+                        w.extend(m.clone());
+                        (m.clone(), w)
+                    }
+                    _ => (m.clone(), m.clone()),
+                };
+                if kind == Kind::Rep {
+                    // a reply needs a request
+                    link.raw_send_now(&[vec![], b"q".to_vec()]);
+                    let r = sim.recv(s);
+                    let _ = sim.run(r).await;
+                }
+                let a = sim.send(s, &app);
                 match sim.run(a).await {
                     Ok(Some(out)) if out.is_ok() => {}
                     other => {
                         fail!(f, format!("C01/socket-send/{}/send-failed", kind.name()), "send did not succeed: {:?}", other.map(|o| o.map(|o| o.err_text().map(|s| s.to_string()))));
                     }
                 }
-                expect.extend_from_slice(&refcodec::encode_message(m));
+                expect.extend_from_slice(&refcodec::encode_message(&wire));
+                if kind == Kind::Req {
+                    // the reply makes the next request legal
+                    link.raw_send_now(&[vec![], b"r".to_vec()]);
+                    let r = sim.recv(s);
+                    let _ = sim.run(r).await;
+                }
             }
             match link.lib_traffic() {
                 Ok(t) => {
@@ -670,25 +714,28 @@ pub fn run(ctx: &Ctx) -> (Report, PropertyMeta) {
         n,
         6..=60,
         |s| {
-            let kind = s.pick(&[Kind::Push, Kind::Dealer, Kind::Pub, Kind::XPub]);
+            let kind = s.pick(&[Kind::Push, Kind::Dealer, Kind::Pub, Kind::XPub, Kind::Req, Kind::Router, Kind::Rep]);
             let k = s.range(1, 3);
             let msgs = (0..k).map(|_| gen_msg(s, 4, max_exp_s, 1 << 21)).collect();
-            SockSendCase { kind, msgs }
+            SockSendCase { kind, msgs, stale: if kind == Kind::Req { s.pick(&[0usize, 0, 1, 2]) } else { 0 } }
         },
         sock_send_outcome,
     );
-    report.sections.push(json!({"part": "d: messages through real PUSH/DEALER/PUB/XPUB sockets to a raw peer", "cases": n}));
+    report.sections.push(json!({"part": "d: messages through real PUSH/DEALER/PUB/XPUB/REQ/ROUTER/REP sockets to a raw peer (REQ / REP: behind exactly one delimiter, ROUTER: minus the identity frame; REQ also after earlier peers have failed)", "cases": n}));
     report.merge(r);
     // grid through sockets as well (single-frame + two-frame boundary shapes)
     let mut sc = vec![];
-    for kind in [Kind::Push, Kind::Dealer, Kind::Pub, Kind::XPub] {
+    for kind in [Kind::Push, Kind::Dealer, Kind::Pub, Kind::XPub, Kind::Req, Kind::Router, Kind::Rep] {
         for a in GRID {
-            sc.push(SockSendCase {
-                kind,
-                msgs: vec![MsgCase {
-                    frames: vec![FrameSpec { len: a, fill: Fill::Seed(5) }, FrameSpec { len: 255, fill: Fill::Seed(6) }, FrameSpec { len: 256, fill: Fill::Seed(7) }],
-                }],
-            });
+            for stale in if kind == Kind::Req { vec![0usize, 2] } else { vec![0usize] } {
+                sc.push(SockSendCase {
+                    kind,
+                    msgs: vec![MsgCase {
+                        frames: vec![FrameSpec { len: a, fill: Fill::Seed(5) }, FrameSpec { len: 255, fill: Fill::Seed(6) }, FrameSpec { len: 256, fill: Fill::Seed(7) }],
+                    }],
+                    stale,
+                });
+            }
         }
     }
     let r = run_cases(ctx, "socket_send", &sc, sock_send_outcome);
